@@ -122,6 +122,7 @@ PROP_BOUNDED = {
     'C08': 'harness/c08_bounded.py',
     'C10': 'harness/bp_scenarios.py --prop C10',
     'C11': 'harness/bp_scenarios.py --prop C11',
+    'C12': 'harness/bp_scenarios.py --prop C12',
     'C19': 'harness/bp_scenarios.py --prop C19',
     'C13': 'harness/c13_bounded.py',
     'C20': 'harness/c20_bounded.py',
